@@ -102,5 +102,5 @@ MANIFEST = {
     "engine": "sched",
     "technique": "fault injection + property-based testing with controlled schedules: every choice of 1-2 failing nodes x resource x completion order, exception-shape and no-downstream-start predicates over the trace",
     "level_text": "Fault enumeration: the failing nodes are drawn per generated DAG and the controller decides when they fail relative to their siblings (enumerating all orders for small cases); the trace shows every start after the failure became observable.",
-    "level_note": "Trusted: event trace, interposers; 'observed failure' = the wait call that returned the failed future (or the inline raise).",
+    "level_note": "Thorough tier additionally enumerates a complete small scope (every DAG on 4 ordered nodes x the property's own dimension - priorities / sequential subsets / failing node - with the whole completion-order tree of each). Trusted: event trace, interposers; 'observed failure' = the wait call that returned the failed future (or the inline raise).",
 }
